@@ -3,7 +3,7 @@ From Coq Require Import String List Bool Arith.
 From TS Require Import Model.Str Model.Outcome Model.Unicode Model.Syntax Model.Attrs Model.Types Model.Parse Model.Lang.Common Model.Lang.Decl.
 From TS Require Import Model.Lang.TypeScript Model.Lang.Kotlin Model.Lang.Swift Model.Lang.Scala Model.Lang.Go Model.Lang.Python.
 From TS Require Import Spec.Serde Spec.C04Spec Spec.C04Readers.
-From TS Require Proofs.FrontTypes Proofs.FrontAttrs Proofs.C04 Proofs.C04_Back Proofs.C04_Matrix.
+From TS Require Proofs.FrontTypes Proofs.FrontAttrs Proofs.C04 Proofs.C04_Back Proofs.C04_Matrix Proofs.GoAcronyms.
 Import ListNotations.
 Local Open Scope nat_scope.
 From TS Require Props.C04.
@@ -233,6 +233,86 @@ Goal forall (uc : unicode) (cfg : go_config), go_no_pointer_slice cfg = false ->
                                    (c04r_seen (go_c04_typed decl member C04Payload x)) = true.
 Proof. exact Props.C04.C04_back_go_payload_partial. Qed.
 Print Assumptions Props.C04.C04_back_go_payload_partial.
+Goal forall (uc : unicode), unicode_ok uc ->
+  forall (cfg : go_config), go_no_pointer_slice cfg = false ->
+    forallb (forallb Proofs.GoAcronyms.ga_alnum) (go_uppercase_acronyms cfg) = true ->
+  forall f g s m s' decl,
+    type_override f Go = None ->
+    (is_optional (fty f) = true -> tmap_get (go_type_mappings cfg) (rtype_display (fty f)) = None) ->
+    Proofs.GoAcronyms.ga_texp_asciib cfg (fty f) = true ->
+    go_member_of uc cfg g f s = Ok (m, s') ->
+    exists y s3 s4 y', go_texp cfg g (Proofs.C04.c04_strip (fty f)) s3 = Ok (y, s4) /\
+      (forall s5, go_acronyms_ty uc cfg y s5 = Ok (y', s5)) /\
+      good_C04 Go (Proofs.C04_Back.c04_expect_of C04Field (fty f) (has_default f) (go_show y')) (c04r_seen (go_c04_member decl m)) = true.
+Proof. exact Props.C04.C04_back_go_field. Qed.
+Print Assumptions Props.C04.C04_back_go_field.
+Goal forall (uc : unicode), unicode_ok uc ->
+  forall (cfg : go_config), go_no_pointer_slice cfg = false ->
+    forallb (forallb Proofs.GoAcronyms.ga_alnum) (go_uppercase_acronyms cfg) = true ->
+  forall sh cs sn tag t vsh s v s',
+    (is_optional t = true -> tmap_get (go_type_mappings cfg) (rtype_display t) = None) ->
+    Proofs.GoAcronyms.ga_texp_asciib cfg t = true ->
+    go_variant_of uc cfg sh cs sn tag (VTuple t vsh) s = Ok (v, s') ->
+    exists x p y s3 s4 y', gv_content v = GCType x p /\ go_texp cfg [] (Proofs.C04.c04_strip t) s3 = Ok (y, s4) /\
+      (forall s5, go_acronyms_ty uc cfg y s5 = Ok (y', s5)) /\
+      forall decl member, good_C04 Go (Proofs.C04_Back.c04_expect_of C04Payload t false (go_show y'))
+                                   (c04r_seen (go_c04_typed decl member C04Payload x)) = true.
+Proof. exact Props.C04.C04_back_go_payload. Qed.
+Print Assumptions Props.C04.C04_back_go_payload.
+Goal forall e s, good_C04_go false e s = good_C04 Go e s.
+Proof. exact Props.C04.C04_good_go_agrees. Qed.
+Print Assumptions Props.C04.C04_good_go_agrees.
+Goal forall (uc : unicode), unicode_ok uc ->
+  forall (cfg : go_config), forallb (forallb Proofs.GoAcronyms.ga_alnum) (go_uppercase_acronyms cfg) = true ->
+  forall f g s m s' decl,
+    type_override f Go = None ->
+    (is_optional (fty f) = true -> tmap_get (go_type_mappings cfg) (rtype_display (fty f)) = None) ->
+    Proofs.GoAcronyms.ga_texp_asciib cfg (fty f) = true ->
+    go_member_of uc cfg g f s = Ok (m, s') ->
+    exists y s3 s4 y', go_texp cfg g (Proofs.C04.c04_strip (fty f)) s3 = Ok (y, s4) /\
+      (forall s5, go_acronyms_ty uc cfg y s5 = Ok (y', s5)) /\
+      good_C04_go (c04_go_bare (go_no_pointer_slice cfg) (fty f))
+                  (Proofs.C04_Back.c04_expect_of C04Field (fty f) (has_default f) (go_show y')) (c04r_seen (go_c04_member decl m)) = true.
+Proof. exact Props.C04.C04_back_go_field_any_slice_mode. Qed.
+Print Assumptions Props.C04.C04_back_go_field_any_slice_mode.
+Goal forall (uc : unicode), unicode_ok uc ->
+  forall (cfg : go_config), forallb (forallb Proofs.GoAcronyms.ga_alnum) (go_uppercase_acronyms cfg) = true ->
+  forall sh cs sn tag t vsh s v s',
+    (is_optional t = true -> tmap_get (go_type_mappings cfg) (rtype_display t) = None) ->
+    Proofs.GoAcronyms.ga_texp_asciib cfg t = true ->
+    go_variant_of uc cfg sh cs sn tag (VTuple t vsh) s = Ok (v, s') ->
+    exists x p y s3 s4 y', gv_content v = GCType x p /\ go_texp cfg [] (Proofs.C04.c04_strip t) s3 = Ok (y, s4) /\
+      (forall s5, go_acronyms_ty uc cfg y s5 = Ok (y', s5)) /\
+      forall decl member, good_C04_go (c04_go_bare (go_no_pointer_slice cfg) t)
+                                      (Proofs.C04_Back.c04_expect_of C04Payload t false (go_show y'))
+                                      (c04r_seen (go_c04_typed decl member C04Payload x)) = true.
+Proof. exact Props.C04.C04_back_go_payload_any_slice_mode. Qed.
+Print Assumptions Props.C04.C04_back_go_payload_any_slice_mode.
+Goal forall (uc : unicode) (cfg : go_config) cs a s ds s',
+    (is_optional (atype a) = true -> tmap_get (go_type_mappings cfg) (rtype_display (atype a)) = None) ->
+    go_decl_of uc cfg cs (ItAlias a) s = Ok (ds, s') ->
+    exists name x y s3 s4, flat_map go_c04_rows ds = [go_c04_typed name [] C04Alias x] /\
+      go_texp cfg [] (Proofs.C04.c04_strip (atype a)) s3 = Ok (y, s4) /\
+      good_C04_go (c04_go_bare (go_no_pointer_slice cfg) (atype a))
+                  (Proofs.C04_Back.c04_expect_of C04Alias (atype a) false (go_show y)) (c04r_seen (go_c04_typed name [] C04Alias x)) = true.
+Proof. exact Props.C04.C04_back_go_alias_any_slice_mode. Qed.
+Print Assumptions Props.C04.C04_back_go_alias_any_slice_mode.
+Goal forall (uc : unicode) (cfg : go_config) f g s m s' decl ref,
+    go_member_of uc cfg g f s = Ok (m, s') ->
+    gm_omitempty m = (is_optional (fty f) || has_default f) /\
+    gm_star m = (has_default f && negb (is_optional (fty f))) /\
+    good_C04_go_override (Proofs.C04_Back.c04_expect_of C04Field (fty f) (has_default f) ref) (c04r_seen (go_c04_member decl m)) = true.
+Proof. exact Props.C04.C04_back_go_field_tag. Qed.
+Print Assumptions Props.C04.C04_back_go_field_tag.
+Goal forall (uc : unicode), unicode_ok uc ->
+  forall (cfg : go_config), forallb (forallb Proofs.GoAcronyms.ga_alnum) (go_uppercase_acronyms cfg) = true ->
+  forall (t : go_ty) s, forallb is_ascii (go_show t) = true ->
+    go_acronyms_ty uc cfg t s = Ok (Proofs.GoAcronyms.ga_ty_map (Proofs.GoAcronyms.ga_T cfg) t, s) /\
+    go_show (Proofs.GoAcronyms.ga_ty_map (Proofs.GoAcronyms.ga_T cfg) t) = Proofs.GoAcronyms.ga_T cfg (go_show t) /\
+    List.length (Proofs.GoAcronyms.ga_T cfg (go_show t)) = List.length (go_show t) /\
+    str_upper_ascii (Proofs.GoAcronyms.ga_T cfg (go_show t)) = str_upper_ascii (go_show t).
+Proof. exact Props.C04.C04_go_acronyms_on_type. Qed.
+Print Assumptions Props.C04.C04_go_acronyms_on_type.
 Goal forallb (fun L => forallb (Proofs.C04_Matrix.c04m_ok L) Proofs.C04_Matrix.c04m_bases) all_langs = true.
 Proof. exact Props.C04.C04_marker_matrix. Qed.
 Print Assumptions Props.C04.C04_marker_matrix.
